@@ -144,4 +144,9 @@ if __name__ == "__main__":
         cmd_confirm(sys.argv[2], only=set(sys.argv[3:]) or None)
     elif sys.argv[1] == "matrix":
         args = [a for a in sys.argv[4:] if not a.startswith("--")]
-        cmd_matrix(sys.argv[2], sys.argv[3], only=set(args) or None, thorough_primary="--thorough-primary" in sys.argv)
+        if "--primary-only" in sys.argv:
+            # one check per change: the property it was written against
+            for pid in PROPS:
+                cmd_matrix(sys.argv[2], sys.argv[3], only={pid} if not args else ({pid} & set(args) or {"-"}), checks=[pid], thorough_primary="--thorough-primary" in sys.argv)
+        else:
+            cmd_matrix(sys.argv[2], sys.argv[3], only=set(args) or None, thorough_primary="--thorough-primary" in sys.argv)
